@@ -74,6 +74,67 @@ fn op_str(op: &Op) -> String {
     }
 }
 
+/// Compact machine-readable form of (configuration, op list) for `--replay`.
+fn replay_code(cfg: &Cfg, ops: &[Op]) -> String {
+    let mut s = format!(
+        "h={}.{}.{};t={};s={};m={};o=",
+        cfg.helper[0],
+        cfg.helper[1],
+        cfg.helper[2],
+        cfg.timer as u8,
+        cfg.shards,
+        if cfg.mode == Mode::Session { "s" } else { "g" }
+    );
+    let v: Vec<String> = ops
+        .iter()
+        .map(|op| match *op {
+            Op::Ev(Ev::Est(p, m)) => format!("E{}.{}", p, m),
+            Op::Ev(Ev::Eor(p, f)) => format!("R{}.{}", p, f),
+            Op::Ev(Ev::Wd(p)) => format!("W{}", p),
+            Op::Ev(Ev::Timer) => "T".to_string(),
+            Op::Ins(f, x, sr) => format!("I{}.{}.{}", f, x, sr),
+        })
+        .collect();
+    s.push_str(&v.join(","));
+    s
+}
+
+fn parse_replay_code(code: &str) -> Option<(Cfg, Vec<Op>)> {
+    let mut cfg = Cfg { helper: [0; NP], timer: true, shards: 1, mode: Mode::Glue };
+    let mut ops = Vec::new();
+    for part in code.split(';') {
+        let (k, v) = part.split_once('=')?;
+        match k {
+            "h" => {
+                let n: Vec<u8> = v.split('.').filter_map(|x| x.parse().ok()).collect();
+                if n.len() != NP {
+                    return None;
+                }
+                cfg.helper = [n[0] & 7, n[1] & 7, n[2] & 7];
+            }
+            "t" => cfg.timer = v == "1",
+            "s" => cfg.shards = if v == "2" { 2 } else { 1 },
+            "m" => cfg.mode = if v == "s" { Mode::Session } else { Mode::Glue },
+            "o" => {
+                for w in v.split(',').filter(|w| !w.is_empty()) {
+                    let n: Vec<u8> = w[1..].split('.').filter_map(|x| x.parse().ok()).collect();
+                    let op = match (&w[..1], n.len()) {
+                        ("E", 2) if (n[0] as usize) < NP && n[1] < 8 => Op::Ev(Ev::Est(n[0], n[1])),
+                        ("R", 2) if (n[0] as usize) < NP && (n[1] as usize) < NF => Op::Ev(Ev::Eor(n[0], n[1])),
+                        ("W", 1) if (n[0] as usize) < NP => Op::Ev(Ev::Wd(n[0])),
+                        ("T", 0) => Op::Ev(Ev::Timer),
+                        ("I", 3) if (n[0] as usize) < NTF && (n[1] as usize) < NPFX && (n[2] as usize) < NSRC => Op::Ins(n[0], n[1], n[2]),
+                        _ => return None,
+                    };
+                    ops.push(op);
+                }
+            }
+            _ => {}
+        }
+    }
+    Some((cfg, ops))
+}
+
 fn ev_kind(ev: &Ev) -> &'static str {
     match ev {
         Ev::Est(_, 0) => "est-nogr",
@@ -1208,6 +1269,7 @@ impl Ctx {
                     Json::obj(vec![
                         ("origin", Json::s(origin)),
                         ("config", cfg.json()),
+                        ("replay_code", Json::s(replay_code(&cfg, &ops))),
                         ("ops", Json::strs(ops.iter().map(op_str))),
                         ("events_only", Json::strs(ops.iter().filter(|o| matches!(o, Op::Ev(_))).map(op_str))),
                         ("failing_step", Json::Int(v.as_ref().map(|v| v.step as i128).unwrap_or(-1))),
@@ -1300,16 +1362,42 @@ fn restrict(mut h: [u8; NP], peers: usize, fams: usize) -> [u8; NP] {
 
 /// All event sequences of length `depth` over the alphabet; the (first, second)
 /// event pair selects the shard.
-fn run_exhaustive(ctx: &mut Ctx, cfgname: &str, depth: usize, peers: usize, fams: usize, shard: u64, nshards: u64, mode: Mode) -> bool {
+///
+/// `sym`: when every peer has the same configuration, histories that differ
+/// only by a renaming of the peers are run once (the representative mentions
+/// the peers in the order p1, p2, p3); the others are counted as
+/// `…:skipped-by-peer-symmetry`.  The unreduced enumeration is in the thorough tier.
+fn run_exhaustive(ctx: &mut Ctx, cfgname: &str, depth: usize, peers: usize, fams: usize, shard: u64, nshards: u64, mode: Mode, sym: bool) -> bool {
     let alpha = alphabet(peers, fams);
     let n = alpha.len();
     let helper = restrict(named_cfg(cfgname), peers, fams);
+    let sym = sym && (0..peers).all(|p| helper[p] == helper[0]);
+    let mut skipped_sym = 0u64;
     let mut idx = vec![0usize; depth];
     let mut complete = true;
     let mut count = 0u64;
     'outer: loop {
         let key = if depth >= 2 { idx[0] * n + idx[1] } else { idx[0] };
-        if key as u64 % nshards == shard {
+        let canonical = !sym || {
+            let mut next_new = 0u8;
+            idx.iter().all(|i| {
+                let p = match alpha[*i] {
+                    Ev::Est(p, _) | Ev::Eor(p, _) | Ev::Wd(p) => p,
+                    Ev::Timer => return true,
+                };
+                if p > next_new {
+                    return false;
+                }
+                if p == next_new {
+                    next_new += 1;
+                }
+                true
+            })
+        };
+        if key as u64 % nshards == shard && !canonical {
+            skipped_sym += 1;
+        }
+        if key as u64 % nshards == shard && canonical {
             let events: Vec<Ev> = idx.iter().map(|i| alpha[*i]).collect();
             let mut h = 0u64;
             for i in &idx {
@@ -1341,6 +1429,9 @@ fn run_exhaustive(ctx: &mut Ctx, cfgname: &str, depth: usize, peers: usize, fams
         }
     }
     ctx.rep.count_n(&format!("exhaustive:{}:d{}:p{}f{}:{:?}:sequences", cfgname, depth, peers, fams, mode), count);
+    if sym {
+        ctx.rep.count_n(&format!("exhaustive:{}:d{}:p{}f{}:{:?}:skipped-by-peer-symmetry", cfgname, depth, peers, fams, mode), skipped_sym);
+    }
     if complete {
         ctx.rep.count(&format!("exhaustive:{}:d{}:p{}f{}:{:?}:complete-shards", cfgname, depth, peers, fams, mode));
     }
@@ -1681,17 +1772,43 @@ fn run() {
     let mode = if params.get("mode") == Some("session") { Mode::Session } else { Mode::Glue };
     let mut exhaustive_ok = true;
 
+    if let Some(path) = params.replay.clone() {
+        // ./check C11 --replay <file>: re-execute exactly the recorded history
+        let text = std::fs::read_to_string(&path).unwrap_or_default();
+        let code = text.find("\"replay_code\"").and_then(|i| {
+            let rest = &text[i + 13..];
+            let a = rest.find('"')?;
+            let b = rest[a + 1..].find('"')?;
+            Some(rest[a + 1..a + 1 + b].to_string())
+        });
+        match code.as_deref().and_then(parse_replay_code) {
+            Some((cfg, ops)) => {
+                if let Ok(o) = ctx.exec(&cfg, &ops, true) {
+                    for l in &o.trace {
+                        eprintln!("{}", l);
+                    }
+                }
+                ctx.case(&cfg, &ops, "replay");
+                ctx.rep.count("replayed");
+            }
+            None => ctx.rep.inconclusive("replay file has no usable replay_code (machine-only witnesses are replayed by part=machine)"),
+        }
+        let Ctx { mut rep, mut st, .. } = ctx;
+        st.flush(&mut rep);
+        let _ = rep.finish();
+        return;
+    }
     if part == "all" {
         // small self-contained run (used when the module is started by hand)
         for c in ["full", "asym", "chain"] {
-            exhaustive_ok &= run_exhaustive(&mut ctx, c, 2, NP, NF, 0, 1, Mode::Glue);
+            exhaustive_ok &= run_exhaustive(&mut ctx, c, 2, NP, NF, 0, 1, Mode::Glue, false);
         }
-        exhaustive_ok &= run_exhaustive(&mut ctx, "asym", 2, NP, NF, 0, 1, Mode::Session);
+        exhaustive_ok &= run_exhaustive(&mut ctx, "asym", 2, NP, NF, 0, 1, Mode::Session, false);
         run_random(&mut ctx, &mut rng, params.n(300, 3000));
     }
     if part == "exh" {
         for c in cfgname.split('+') {
-            exhaustive_ok &= run_exhaustive(&mut ctx, c, depth, peers, fams, shard, nshards, mode);
+            exhaustive_ok &= run_exhaustive(&mut ctx, c, depth, peers, fams, shard, nshards, mode, params.flag("sym"));
         }
     }
     if part == "machine" {
@@ -1702,20 +1819,9 @@ fn run() {
     if part == "rnd" {
         run_random(&mut ctx, &mut rng, params.get_u64("count", 2000));
     }
-    if part == "replay_probe" {
-        // developer aid: run a fixed hand-written history with a trace on stderr
-        let cfg = Cfg { helper: named_cfg(&cfgname), timer: true, shards: 1, mode };
-        let ops = vec![Op::Ins(0, 0, 0), Op::Ev(Ev::Est(0, 1)), Op::Ins(0, 1, 1), Op::Ev(Ev::Eor(0, 0)), Op::Ins(0, 2, 0)];
-        if let Ok(o) = ctx.exec(&cfg, &ops, true) {
-            for l in &o.trace {
-                eprintln!("{}", l);
-            }
-        }
-        ctx.case(&cfg, &ops, "probe");
-    }
     let Ctx { mut rep, mut st, .. } = ctx;
     st.flush(&mut rep);
-    rep.exhaustive = Some(exhaustive_ok && part != "rnd");
+    rep.exhaustive = if part == "rnd" { None } else { Some(exhaustive_ok) };
     if !exhaustive_ok {
         rep.inconclusive("time budget ended before the exhaustive enumeration was complete");
     }
